@@ -122,7 +122,7 @@ func (combatComp) Exec(c *wire.Case, w *wire.Writer) {
 	w.Case(c.ID)
 	defer w.End()
 	ev := &event.System{}
-	stub := &stubEval{props: map[key.TargetID]info.PropMap{}}
+	stub := &stubEval{props: map[key.TargetID]info.PropMap{}, weak: map[key.TargetID]info.WeaknessMap{}}
 	attr := attribute.New(ev, stub)
 	shm := shield.New(ev, attr)
 	tgt := &stubTarget{chars: map[key.TargetID]bool{}}
@@ -179,9 +179,15 @@ func (combatComp) Exec(c *wire.Case, w *wire.Writer) {
 				known[id] = true
 				stub.props[id] = cstatsProps(op)
 				tgt.chars[id] = op.Bool("char")
+				// the unit's weaknesses: every other one innate (its attributes), the rest implanted by a modifier
 				wm := info.NewWeaknessMap()
-				for _, d := range op.Ints("weak") {
-					wm[model.DamageType(d)] = true
+				stub.weak[id] = info.NewWeaknessMap()
+				for i, d := range op.Ints("weak") {
+					if i%2 == 0 {
+						wm[model.DamageType(d)] = true
+					} else {
+						stub.weak[id][model.DamageType(d)] = true
+					}
 				}
 				weak[id] = wm
 				_ = attr.AddTarget(id, info.Attributes{Level: op.Int("level"), HPRatio: op.Flt("hpr"), Energy: op.Flt("energy"), MaxEnergy: op.Flt("maxenergy"),
@@ -195,8 +201,13 @@ func (combatComp) Exec(c *wire.Case, w *wire.Writer) {
 				for k := range weak[id] {
 					delete(weak[id], k)
 				}
-				for _, d := range op.Ints("weak") {
-					weak[id][model.DamageType(d)] = true
+				stub.weak[id] = info.NewWeaknessMap()
+				for i, d := range op.Ints("weak") {
+					if i%2 == 0 {
+						weak[id][model.DamageType(d)] = true
+					} else {
+						stub.weak[id][model.DamageType(d)] = true
+					}
 				}
 			case "shield":
 				t := key.TargetID(op.Int("tgt"))
@@ -399,6 +410,9 @@ func (combatComp) Gen(r *rand.Rand, tier string, n int) []*wire.Case {
 	// defence pushed to and below its clamp by percentage and flat reductions
 	mk("d-def-clamp", plainU(1, true, 1), plainU(2, false, 1).F("defpct", -1.2).F("defflat", 150), plainU(3, false, 1).F("defflat", -800), plainU(4, false, 1).F("defpct", -0.5).F("defflat", 100),
 		atk(1, 1, []int{2, 3, 4}, 1, 2, 0.5), wire.R("endattack"))
+	// weaknesses: innate ones (first of the list) and implanted by a modifier (second), hit by each element and by one it is not weak to
+	mk("d-weak-implanted", plainU(1, true, 1), set(plainU(2, false, 1), "weak", "3,2"), set(plainU(3, false, 1), "weak", "4,5,2"),
+		atk(1, 1, []int{2, 3}, 1, 2, 0.5), atk(2, 1, []int{2, 3}, 1, 3, 0.5), atk(3, 1, []int{2, 3}, 1, 5, 0.5), atk(4, 1, []int{2, 3}, 1, 6, 0.5), wire.R("endattack"))
 	mk("d-crit-dot", plainU(1, true, 1), plainU(2, false, 1), atk(1, 1, []int{2}, 4, 1, 0), atk(2, 1, []int{2}, 9, 1, 0), atk(3, 1, []int{2}, 5, 1, 0))
 	// clamps
 	mk("d-clamp-res", plainU(1, true, 1), set(plainU(2, false, 1), "res", seven(2, 0.95)), atk(1, 1, []int{2}, 1, 2, 0.5),
